@@ -31,7 +31,7 @@ BOUNDS = {"quick": {"history_length": 3}, "thorough": {"history_length": 4}}
 REQUIRED = {"quick": {"histories": 300000, "states_compared": 1500000, "nan_first_histories": 20000, "flip_histories": 100000, "basic_optimizer_runs": 120, "basic_optimizer_scripted_runs": 25, "basic_results_with_violation_between_default_and_requested_tolerance": 30, "__nontrivial__": 200},
             "thorough": {"histories": 15000000, "states_compared": 100000000, "nan_first_histories": 1000000, "flip_histories": 5000000, "basic_optimizer_runs": 1200, "basic_optimizer_scripted_runs": 250, "basic_results_with_violation_between_default_and_requested_tolerance": 300, "__nontrivial__": 2000}}
 
-OBJ = [-1.0, 0.0, 0.0, 1.0, float("nan")]      # a negative value, a tie at exactly zero, a positive value, an undefined one
+OBJ = [float("-inf"), 0.0, 0.0, float("inf"), float("nan")]      # infinitely good, a tie at exactly zero, infinitely bad (still a value), undefined
 FEAS = ["ok", "v0.1", "v2", "noinfo"]
 LETTERS = [("f", o, f) for o in range(5) for f in FEAS] + [("nofunc", None, None), ("grad", None, None)]
 EVENTS = [(src, l) for src in ("tracked", "other") for l in LETTERS]
